@@ -43,6 +43,10 @@ EXCEPTIONS = ["Classpath-exception-2.0", "GCC-exception-3.1"]
 LICENSEREF = ["LicenseRef-Custom", "LicenseRef-Other.1"]
 UNKNOWN = ["Foo-1.0", "mit"]
 
+# bytes that binaryornot really classifies as binary (note: '\x89' in a str would be encoded as two UTF-8 bytes; raw
+# bytes above 0x7f have to be written as surrogate escapes)
+BINARY = "\udc89PNG\r\n\x1a\n\x00\x00\x00\rIHDR\x00\x00\x01\x00" + "\udcfe\x00\x01\udcff" * 40
+
 HOLDERS = [
     "Jane Doe", "John Smith <john@example.org>", "ACME Corp.", "Ünï Cödé GmbH",
     "O'Brien & Sons", "Free Software Foundation Europe e.V. <https://fsfe.org>",
